@@ -7,6 +7,7 @@ from typing import TYPE_CHECKING, ClassVar
 from mypy_extensions import mypyc_attr
 
 from pyjelly import jelly
+from pyjelly.errors import JellyConformanceError
 from pyjelly.options import LookupPreset, StreamParameters, StreamTypes
 from pyjelly.serialize.encode import (
     Slot,
@@ -61,6 +62,7 @@ class Stream:
         self.flow = flow
         self.repeated_terms = [None] * len(Slot)
         self.enrolled = False
+        self.failed = False
         self.stream_types = StreamTypes(
             physical_type=self.physical_type,
             logical_type=self.flow.logical_type,
@@ -92,6 +94,15 @@ class Stream:
             flow = ManualFrameFlow(logical_type=self.options.logical_type)
         return flow
 
+    def check_usable(self) -> None:
+        """Refuse to continue a stream after a statement failed to encode."""
+        if self.failed:
+            msg = (
+                "a previous statement failed to encode and left the lookup state "
+                "of this stream undefined; start a new stream"
+            )
+            raise JellyConformanceError(msg)
+
     def enroll(self) -> None:
         """Initialize start of the stream."""
         if not self.enrolled:
@@ -117,11 +128,16 @@ class Stream:
             iri (str): namespace iri
 
         """
-        rows = encode_namespace_declaration(
-            name=name,
-            value=iri,
-            term_encoder=self.encoder,
-        )
+        self.check_usable()
+        try:
+            rows = encode_namespace_declaration(
+                name=name,
+                value=iri,
+                term_encoder=self.encoder,
+            )
+        except BaseException:
+            self.failed = True
+            raise
         self.flow.extend(rows)
 
     @classmethod
@@ -203,11 +219,16 @@ class TripleStream(Stream):
                 flow supports frames slicing and current flow is full
 
         """
-        new_rows = encode_triple(
-            terms,
-            term_encoder=self.encoder,
-            repeated_terms=self.repeated_terms,
-        )
+        self.check_usable()
+        try:
+            new_rows = encode_triple(
+                terms,
+                term_encoder=self.encoder,
+                repeated_terms=self.repeated_terms,
+            )
+        except BaseException:
+            self.failed = True
+            raise
         self.flow.extend(new_rows)
         return self.flow.frame_from_bounds()
 
@@ -228,11 +249,16 @@ class QuadStream(Stream):
                 flow supports frames slicing and current flow is full
 
         """
-        new_rows = encode_quad(
-            terms,
-            term_encoder=self.encoder,
-            repeated_terms=self.repeated_terms,
-        )
+        self.check_usable()
+        try:
+            new_rows = encode_quad(
+                terms,
+                term_encoder=self.encoder,
+                repeated_terms=self.repeated_terms,
+            )
+        except BaseException:
+            self.failed = True
+            raise
         self.flow.extend(new_rows)
         return self.flow.frame_from_bounds()
 
@@ -257,8 +283,13 @@ class GraphStream(TripleStream):
             Generator[jelly.RdfStreamFrame]: jelly frames.
 
         """
+        self.check_usable()
         graph_start = jelly.RdfGraphStart()
-        [*graph_rows] = self.encoder.encode_graph(graph_id, graph_start)
+        try:
+            [*graph_rows] = self.encoder.encode_graph(graph_id, graph_start)
+        except BaseException:
+            self.failed = True
+            raise
         start_row = jelly.RdfStreamRow(graph_start=graph_start)
         graph_rows.append(start_row)
         self.flow.extend(graph_rows)
